@@ -242,7 +242,28 @@ TFlood ==
   /\ l' = l + 1
   /\ UNCHANGED cfgs
 
-TraceNext == l <= Len(Log) /\ (TBoot \/ TSkip \/ TReq \/ TFlood)
+(* ---------------------------------------------------------------- XTLV: property writers no Hello uses      *)
+(* (lltdTlvOps.c; beyond the listed properties).  Support URL: type 0x10, at most 64 bytes of what the         *)
+(* platform supplies.  UPnP UUID: type 0x12, the 16 bytes, or length 0 when the platform has none.  Hardware   *)
+(* id: type 0x13, at most 64 bytes, nothing at all when there is none.  802.11 medium: as coded it is tagged   *)
+(* 0x03 (the interface-type tag; MS-LLTD gives the 802.11 physical medium 0x15) with the big-endian value,     *)
+(* 0 when the platform does not report one.  Nothing outside the returned extent is touched.                   *)
+BE32(hl) == << hl[1] \div 256, hl[1] % 256, hl[2] \div 256, hl[2] % 256 >>
+FirstN(b, n) == SubSeq(b, 1, Min(Len(b), n))
+TlvWant(ev) ==
+  CASE ev.w = "support" -> << 16, Min(Len(ev.url), 64) >> \o FirstN(ev.url, 64)
+    [] ev.w = "uuid"    -> IF Len(ev.uuid) = 16 /\ ~Bit(ev.gf, 16) THEN << 18, 16 >> \o ev.uuid ELSE << 18, 0 >>
+    [] ev.w = "hwid"    -> IF Len(ev.hwid) = 0 \/ Bit(ev.gf, 5) THEN << >> ELSE << 19, Min(Len(ev.hwid), 64) >> \o FirstN(ev.hwid, 64)
+    [] ev.w = "medium"  -> << 3, 4 >> \o (IF ev.wifi = 1 /\ ~Bit(ev.gf, 15) THEN BE32(ev.phy) ELSE << 0, 0, 0, 0 >>)
+TTlv ==
+  LET ev == Log[l] IN
+  /\ ev.e = "tlv"
+  /\ Chk("XTLV") => (ev.b = TlvWant(ev) /\ ev.ret = Len(ev.b) /\ ev.clean = 1)
+  /\ (Primary = "XTLV" => TLCSet(2, TLCGet(2) \cup {l}))
+  /\ l' = l + 1
+  /\ UNCHANGED << sts, cfgs, aux >>
+
+TraceNext == l <= Len(Log) /\ (TBoot \/ TSkip \/ TReq \/ TFlood \/ TTlv)
 
 TraceSpec == TraceInit /\ [][TraceNext]_vars
 
